@@ -330,7 +330,11 @@ def p_handoff_not_finished(chk):
                  z3.Or(asked.empty, z3.Select(asked.member, z3.Select(S1["j_chan"], j))))
         I.oblige("handed_job_not_finished", z3.Not(z3.Select(S1["j_done"], j)))
 
-    def replay(model, obligation):
+    chk.prove("jobs.workq.pop[resume]", harness, ex, targets=[fn], replay=handoff_replay)
+
+
+def handoff_replay(model, obligation):
+    if True:
         from contracts import qhistory
         n, appl, fail, samples = qhistory.search(4, checks=("c17",), budget=40000, want="c17")
         if fail:
@@ -338,8 +342,6 @@ def p_handoff_not_finished(chk):
             cls = "finished-between-handoff-and-resume" if ("kill" in ops or "clock" in ops) and "pull" in ops else "other"
             return True, fail, cls
         return False, {"histories_searched": n}, None
-
-    chk.prove("jobs.workq.pop[resume]", harness, ex, targets=[fn], replay=replay)
 
 
 def replay_history(model, obligation):
@@ -367,13 +369,18 @@ def bounded(chk):
 
 def run(chk):
     import os
+    qm.EXTENDED = True
     only = os.environ.get("VERIF_ONLY")
     parts = [("order", p_order), ("mark", p_mark_finished), ("finishjob", p_finishjob), ("pop", p_pop), ("idem", p_push_idempotent),
              ("callers", p_pushjob_callers), ("handoff", p_handoff_not_finished), ("bounded", bounded)]
-    for name, fn in parts:
-        if only and name not in only.split(","):
-            continue
-        fn(chk)
+    parts = [(n, f) for n, f in parts if not only or n in only.split(",")]
+    for n, f in parts:
+        if n != "bounded":
+            f(chk)
+    chk.vc_replay["C17."] = replay_history
+    chk.vc_replay["C17.jobs.workq.pop[resume]."] = handoff_replay
+    if any(n == "bounded" for n, _ in parts):
+        bounded(chk)
     chk.assumptions += [
         "as C16 (cooperative scheduling, heapq/min/random.choice/gevent contracts, abstract ids)",
         "workq._preenall applies _preenjobq to every channel queue (its iteration is assumed; _preenjobq's body is verified)",
